@@ -3,7 +3,7 @@
    PP.Model.C32); proofs: PP.Proofs.C30 (real instance [RO]). *)
 From Coq Require Import Reals Lra List QArith.
 Import ListNotations.
-From PP Require Import Model.C32 Model.C30 Proofs.C32 Proofs.C30.
+From PP Require Import Model.C32 Model.C30 Proofs.C32 Proofs.C30 Proofs.C30_opt Proofs.C30_poly.
 Open Scope R_scope.
 
 (* point-point: the squared Euclidean distance (nonnegative). *)
@@ -40,8 +40,8 @@ Print Assumptions C30_point_segment_total.
    inside the SMALL_TOLERANCE band): for segments of positive length a result is returned,
    both parameters lie in [0,1], the closest points are the corresponding points of the
    two segments and the returned squared distance is their squared distance.
-   _partial: global optimality of (sc, tc) is NOT proved (checked by the exact rational
-   oracle on every generated configuration). *)
+   (_partial in the name: this statement alone does not give optimality; see
+   C30_segseg_optimal_partial below for the global minimum off the tolerance band.) *)
 Theorem C30_segseg_sound_partial :
   forall (small : R) (a b c d : v3 R),
     0 < small ->
@@ -74,6 +74,111 @@ Theorem C30_segseg_set_sound_partial :
 Proof. exact seg_seg_set_sound. Qed.
 Print Assumptions C30_segseg_set_sound_partial.
 
+(* segment-segment, GLOBAL OPTIMALITY off the tolerance band: whenever [off_band] holds --
+   the discriminant is 0 (exactly parallel) or >= SMALL_TOLERANCE, and the final numerators
+   sN, tN are 0 or >= SMALL_TOLERANCE, i.e. none of the three tolerance masks alters the
+   exact algorithm -- the returned squared distance is the minimum of
+   |a + s(b-a) - c - t(d-c)|^2 over the whole square [0,1]^2 (all 28 branch combinations;
+   convexity argument + KKT per stage).
+   _partial: inside the band the result is in general NOT the minimum (nearly parallel
+   segments are treated as parallel, tiny parameters are set to 0): see the Example
+   C30_segseg_band_example below. *)
+Theorem C30_segseg_optimal_partial :
+  forall (small : R) (a b c d : v3 R) dist2 cp1 cp2 sc tc,
+    0 < small ->
+    0 < dot R RO (vsub R RO b a) (vsub R RO b a) ->
+    0 < dot R RO (vsub R RO d c) (vsub R RO d c) ->
+    off_band R RO small a b c d = true ->
+    seg_seg R RO small a b c d = Ok (dist2, cp1, cp2, sc, tc) ->
+    forall s t, 0 <= s <= 1 -> 0 <= t <= 1 ->
+      dist2 <= normsq R RO (vsub R RO (vadd R RO a (vscale R RO s (vsub R RO b a)))
+                                       (vadd R RO c (vscale R RO t (vsub R RO d c)))).
+Proof. exact seg_seg_optimal. Qed.
+Print Assumptions C30_segseg_optimal_partial.
+
+(* ... for segment_segment_set with the tolerance derived from the set. *)
+Theorem C30_segseg_set_optimal_partial :
+  forall (a b : v3 R) (set : list (v3 R * v3 R)),
+    proper (a, b) -> Forall proper set -> off_band_set R RO a b set = true ->
+    forall s0, In s0 set ->
+      forall dist2 cp1 cp2 sc tc,
+        seg_seg R RO (small_tol R RO a b set) a b (fst s0) (snd s0)
+          = Ok (dist2, cp1, cp2, sc, tc) ->
+        forall s t, 0 <= s <= 1 -> 0 <= t <= 1 ->
+          dist2 <= normsq R RO
+                     (vsub R RO (vadd R RO a (vscale R RO s (vsub R RO b a)))
+                                (vadd R RO (fst s0) (vscale R RO t (vsub R RO (snd s0) (fst s0))))).
+Proof. exact seg_seg_set_optimal. Qed.
+Print Assumptions C30_segseg_set_optimal_partial.
+
+(* segment_set (all pairs): for positive-length segments and i < j the entries (i,j) and
+   (j,i) carry the same squared distance, the closest points lie on segment i resp. j and
+   realise it; off the band of the call made for row i it is the minimum over both
+   segments.  The diagonal holds 0 and the mid points. *)
+Theorem C30_segment_set :
+  forall (segs : list (v3 R * v3 R)) (i j : nat) (si sj : v3 R * v3 R),
+    Forall proper segs -> (i < j)%nat ->
+    nth_error segs i = Some si -> nth_error segs j = Some sj ->
+    let small := small_tol R RO (fst si) (snd si) (skipn (S i) segs) in
+    exists d2 p q sc tc,
+      sset_entry R RO segs i j = Ok (d2, p) /\ sset_entry R RO segs j i = Ok (d2, q) /\
+      0 <= sc <= 1 /\ 0 <= tc <= 1 /\
+      p = vadd R RO (fst si) (vscale R RO sc (vsub R RO (snd si) (fst si))) /\
+      q = vadd R RO (fst sj) (vscale R RO tc (vsub R RO (snd sj) (fst sj))) /\
+      d2 = normsq R RO (vsub R RO p q) /\
+      (off_band R RO small (fst si) (snd si) (fst sj) (snd sj) = true ->
+       forall s t, 0 <= s <= 1 -> 0 <= t <= 1 ->
+         d2 <= normsq R RO
+                 (vsub R RO (vadd R RO (fst si) (vscale R RO s (vsub R RO (snd si) (fst si))))
+                            (vadd R RO (fst sj) (vscale R RO t (vsub R RO (snd sj) (fst sj)))))).
+Proof. exact segment_set_spec. Qed.
+Print Assumptions C30_segment_set.
+
+Theorem C30_segment_set_diagonal :
+  forall (segs : list (v3 R * v3 R)) (i : nat) (si : v3 R * v3 R),
+    nth_error segs i = Some si ->
+    sset_entry R RO segs i i
+    = Ok (0, vadd R RO (fst si) (vscale R RO (1 / (1 + 1)) (vsub R RO (snd si) (fst si)))).
+Proof. exact segment_set_diag. Qed.
+Print Assumptions C30_segment_set_diagonal.
+
+(* points_polygon for a polygon whose vertices lie in a plane m.v = dd (m <> 0), any
+   tolerances, whenever a result (d2, cp, in_poly) is returned.  [n] is the unit normal
+   computed by the code from the centred vertices; it spans the same direction as m.
+   * in_poly = False (the transcribed point_in_polygon test says the projection is not
+     inside): cp lies in the plane, on an edge of the polygon, d2 = |p - cp|^2, and d2 is
+     the minimum of the squared distance over ALL points of ALL edges (the whole boundary).
+   * in_poly = True, under [plane_guard n] (the normal is outside numpy's allclose band
+     around +-e_z, or exactly +-e_z; inside the band the code uses the identity as rotation
+     and the result is off the plane by up to ~1e-8*|p|): cp is the orthogonal projection
+     of p onto the plane, lies in the plane, d2 = |p - cp|^2 and d2 is the minimum of the
+     squared distance over the whole plane (hence over the polygon).
+   _partial: that cp is inside the polygon when in_poly = True (resp. that no interior
+   point is closer when in_poly = False) rests on the correctness of the winding-number
+   test point_in_polygon, which is transcribed but NOT proved here (C31 proves it for
+   convex polygons on its own model); checked by the exact oracle incl. non-convex polygons. *)
+Theorem C30_points_polygon_sound_partial :
+  forall (ptol tol : R) (p : v3 R) (poly : list (v3 R)) (m : v3 R) (dd : R)
+         (d2 : R) (cp : v3 R) (inp : bool),
+    0 < dot R RO m m -> Forall (fun v => dot R RO m v = dd) poly ->
+    points_polygon R RO ptol tol p poly = Ok (d2, cp, inp) ->
+    let center := mean R RO poly in
+    exists n, compute_normal R RO (map (fun v => vsub R RO v center) poly) ptol = Ok n /\
+      dot R RO n n = 1 /\ (forall x, dot R RO m x = 0 <-> dot R RO n x = 0) /\
+      (inp = false ->
+         dot R RO m cp = dd /\ d2 = normsq R RO (vsub R RO p cp) /\
+         (exists e s, In e (edges R poly) /\ 0 <= s <= 1 /\
+                      cp = vadd R RO (fst e) (vscale R RO s (vsub R RO (snd e) (fst e)))) /\
+         (forall e t, In e (edges R poly) -> 0 <= t <= 1 ->
+            d2 <= normsq R RO (vsub R RO p (vadd R RO (fst e)
+                                              (vscale R RO t (vsub R RO (snd e) (fst e))))))) /\
+      (inp = true -> plane_guard n ->
+         dot R RO m cp = dd /\ d2 = normsq R RO (vsub R RO p cp) /\
+         cp = vsub R RO p (vscale R RO (dot R RO n (vsub R RO p center)) n) /\
+         (forall y, dot R RO m y = dd -> d2 <= normsq R RO (vsub R RO p y))).
+Proof. exact points_polygon_spec. Qed.
+Print Assumptions C30_points_polygon_sound_partial.
+
 (* ------------------------------------------------------------------ non-vacuity *)
 Example C30_nonvacuous_hyps :
   proper ((0, 0, 0), (2, 0, 0)) /\ Forall proper [((1, -1, 1), (1, 1, 1)); ((3, 1, 0), (4, 5, 0))].
@@ -91,3 +196,55 @@ Example C30_nonvacuous_model_runs :
   seg_seg_set Q QO (0, 0, 0)%Q (2, 0, 0)%Q [((1, -1, 1), (1, 1, 1)); ((0, 1, 0), (2, 1, 0))]%Q
     = [Ok (1, (1, 0, 0), (1, 0, 1), 1 # 2, 1 # 2); Ok (1, (0, 0, 0), (0, 1, 0), 0, 0)]%Q.
 Proof. vm_compute. repeat split. Qed.
+
+(* off-band guard: true on ordinary configurations, false for nearly parallel segments *)
+Example C30_off_band_examples :
+  off_band_set Q QO (0, 0, 0)%Q (2, 0, 0)%Q
+    [((1, -1, 1), (1, 1, 1)); ((0, 1, 0), (2, 1, 0)); ((3, 1, 0), (4, 5, 0))]%Q = true /\
+  off_band Q QO (4 # 100000000)%Q (0, 0, 0)%Q (2, 0, 0)%Q
+    (0, -(1 # 100000), 0)%Q (2, 1 # 100000, 0)%Q = false.
+Proof. vm_compute. split; reflexivity. Qed.
+
+(* inside the band the result need not be the minimum: two segments crossing at (1,0,0)
+   under an angle of 1e-5 are treated as parallel; the model (like the code) returns the
+   squared distance 1e-10 although the segments intersect (s = t = 1/2 gives 0) *)
+Example C30_segseg_band_example :
+  (exists cp1 cp2 sc tc,
+     seg_seg Q QO (small_tol Q QO (0, 0, 0)%Q (2, 0, 0)%Q [((0, -(1 # 100000), 0), (2, 1 # 100000, 0))]%Q)
+       (0, 0, 0)%Q (2, 0, 0)%Q (0, -(1 # 100000), 0)%Q (2, 1 # 100000, 0)%Q
+     = Ok ((1 # 10000000000)%Q, cp1, cp2, sc, tc)) /\
+  normsq Q QO (vsub Q QO (vadd Q QO (0, 0, 0) (vscale Q QO (1 # 2) (2, 0, 0)))
+                         (vadd Q QO (0, -(1 # 100000), 0) (vscale Q QO (1 # 2) (2, 2 # 100000, 0))))%Q
+    = 0%Q.
+Proof. split; [do 4 eexists; vm_compute; reflexivity | vm_compute; reflexivity]. Qed.
+
+(* points_polygon / segment_set on the rational instance: a point above a tilted
+   rectangle (inside), beside it (outside), above the notch of a U-shaped polygon; entries
+   of segment_set *)
+Example C30_nonvacuous_polygon_runs :
+  points_polygon Q QO (1 # 100000) (1 # 100000) (1, 1, 5)%Q [(0,0,0);(4,0,3);(4,2,3);(0,2,0)]%Q
+    = Ok (289 # 25, (76 # 25, 1, 57 # 25), true)%Q /\
+  points_polygon Q QO (1 # 100000) (1 # 100000) (9, 1, 5)%Q [(0,0,0);(4,0,3);(4,2,3);(0,2,0)]%Q
+    = Ok (29, (4, 1, 3), false)%Q /\
+  points_polygon Q QO (1 # 100000) (1 # 100000) (3, 3, 2)%Q
+      [(0,0,0);(6,0,0);(6,5,0);(4,5,0);(4,1,0);(2,1,0);(2,5,0);(0,5,0)]%Q
+    = Ok (5, (4, 3, 0), false)%Q /\
+  sset_entry Q QO [((0,0,0),(1,0,0)); ((0,1,0),(1,1,0)); ((3,0,1),(3,2,1))]%Q 0 2
+    = Ok (5, (1, 0, 0))%Q /\
+  sset_entry Q QO [((0,0,0),(1,0,0)); ((0,1,0),(1,1,0)); ((3,0,1),(3,2,1))]%Q 2 0
+    = Ok (5, (3, 0, 1))%Q /\
+  sset_entry Q QO [((0,0,0),(1,0,0)); ((0,1,0),(1,1,0)); ((3,0,1),(3,2,1))]%Q 1 1
+    = Ok (0, (1 # 2, 1, 0))%Q.
+Proof. vm_compute. repeat split. Qed.
+
+(* the planarity / guard hypotheses are satisfiable over R *)
+Example C30_nonvacuous_plane_hyps :
+  0 < dot R RO (3, 0, -4) (3, 0, -4) /\
+  Forall (fun v => dot R RO (3, 0, -4) v = 0) [(0,0,0); (4,0,3); (4,2,3); (0,2,0)] /\
+  plane_guard (0, 0, 1).
+Proof.
+  cbv [dot vx vy vz fst snd n_mul n_add RO]. split; [lra|]. split.
+  - repeat constructor; lra.
+  - right. cbv [cross ez zero3 vx vy vz fst snd n_mul n_sub n_zero n_one RO].
+    f_equal; [f_equal|]; ring.
+Qed.
